@@ -52,4 +52,56 @@ theorem rotated_cell (a b c d py px : Int) (hthick : ¬ (d = c + 1 ∨ b = a + 1
       forall_eq] at h0 h3 hm h4 ⊢
     omega
 
+/-- A quarter of the area whose two neighbours in its cell are both outside the area contradicts the cell pattern. -/
+theorem cell_end_false {W : Quarter → Prop} (hc : CellPattern W) {s : Quarter} (hs : W s) (y x : Int)
+    (q q1 q3 : Fin 4) (e1 : q1 = q + 1) (e3 : q = q3 + 1)
+    (ht : Comp W s ⟨y, x, q⟩) (h1 : ¬ Comp W s ⟨y, x, q1⟩) (h3 : ¬ Comp W s ⟨y, x, q3⟩) : False := by
+  have hw := comp_white hs ht
+  have e3' : q3 = q + 3 := by subst e3; exact (fin4_13 q3).symm
+  rcases cell_neighbour hc y x q hw with h | h
+  · exact h1 (comp_step ht hw (by rw [e1]; exact h) (Or.inl ⟨rfl, rfl, Or.inl e1⟩))
+  · exact h3 (comp_step ht hw (by rw [e3']; exact h) (Or.inl ⟨rfl, rfl, Or.inr e3⟩))
+
+/-- With the cell pattern no area is a rotated rectangle only one diamond thick. -/
+theorem thin_false {W : Quarter → Prop} (hc : CellPattern W) {s : Quarter} (hs : W s) {a b c d : Int}
+    (h : ∀ t, Comp W s t ↔ InRotated a b c d t) (thin : d = c + 1 ∨ b = a + 1) : False := by
+  have hin := (inRotated_iff a b c d s).1 ((h s).1 Relation.ReflTransGen.refl)
+  have key : ∀ (y x : Int) (q q1 q3 : Fin 4), q1 = q + 1 → q = q3 + 1 → InRotated a b c d ⟨y, x, q⟩ →
+      ¬ InRotated a b c d ⟨y, x, q1⟩ → ¬ InRotated a b c d ⟨y, x, q3⟩ → False :=
+    fun y x q q1 q3 e1 e3 ht h1 h3 =>
+      cell_end_false hc hs y x q q1 q3 e1 e3 ((h _).2 ht) (fun k => h1 ((h _).1 k)) (fun k => h3 ((h _).1 k))
+  have par : (a + c) % 2 = 0 ∨ (a + c) % 2 = 1 := by omega
+  rcases thin with t | t <;> rcases par with p | p
+  · -- the S quarter of the cell with x + y = a - 1, x - y = c + 1
+    refine key ((a - c - 2) / 2) ((a + c) / 2) 2 3 1 (by decide) (by decide) ?_ ?_ ?_ <;>
+      simp only [inRotated_iff, dm] <;> omega
+  · -- the E quarter of the cell with x + y = a - 1, x - y = c
+    refine key ((a - c - 1) / 2) ((a + c - 1) / 2) 1 2 0 (by decide) (by decide) ?_ ?_ ?_ <;>
+      simp only [inRotated_iff, dm] <;> omega
+  · -- the N quarter of the cell with x + y = a, x - y = c
+    refine key ((a - c) / 2) ((a + c) / 2) 0 1 3 (by decide) (by decide) ?_ ?_ ?_ <;>
+      simp only [inRotated_iff, dm] <;> omega
+  · -- the E quarter of the cell with x + y = a - 1, x - y = c
+    refine key ((a - c - 1) / 2) ((a + c - 1) / 2) 1 2 0 (by decide) (by decide) ?_ ?_ ?_ <;>
+      simp only [inRotated_iff, dm] <;> omega
+
+/-- If every white area is a rectangle (and the cell pattern holds), a straight white angle bounded by two diagonals
+contains the whole middle cell. -/
+theorem straight_of_allRect (W : Quarter → Prop) (hc : CellPattern W) (hr : AllRect W) : Straight W := by
+  intro py px i hodd w0 wm w1 w2 w3 w4 q
+  have c0 : Comp W (octant py px i) (octant py px i) := Relation.ReflTransGen.refl
+  have c1 : Comp W (octant py px i) (octant py px (i + 1)) := comp_step c0 w0 w1 (touch_octant py px i)
+  have c2 : Comp W (octant py px i) (octant py px (i + 2)) := by
+    have := comp_step c1 w1 (by rw [fin8_11]; exact w2) (touch_octant py px (i + 1))
+    rwa [fin8_11] at this
+  have c3 : Comp W (octant py px i) (octant py px (i + 3)) := by
+    have := comp_step c2 w2 (by rw [fin8_21]; exact w3) (touch_octant py px (i + 2))
+    rwa [fin8_21] at this
+  rcases hr _ w0 with ⟨x0, x1, y0, y1, h⟩ | ⟨a, b, c, d, h⟩
+  · exact absurd (comp_white w0 ((h _).2 (upright_prev x0 x1 y0 y1 py px i hodd ((h _).1 c0)))) wm
+  · by_cases thin : d = c + 1 ∨ b = a + 1
+    · exact (thin_false hc w0 h thin).elim
+    · exact comp_white w0 ((h _).2 (rotated_cell a b c d py px thin i hodd ((h _).1 c0) ((h _).1 c3)
+        (fun k => wm (comp_white w0 ((h _).2 k))) (fun k => w4 (comp_white w0 ((h _).2 k))) q))
+
 end Cspuz.Proofs.C11ShakashakaConv2
